@@ -645,6 +645,10 @@ func (x *Exec) loopModset(li *loopInfo) map[string]string {
 				d, v, _, _ := e.mapKeysFor(mt)
 				add(d, "new")
 				add(v, "new")
+			case *ssa.Next:
+				if rg, ok := in.Iter.(*ssa.Range); ok {
+					add(fmt.Sprintf("L:iter_%s_%d", sanitize(rg.Name()), rg.Block().Index), "any")
+				}
 			case *ssa.MakeClosure, *ssa.MakeChan:
 				add("brk", "any")
 			case *ssa.MakeInterface:
@@ -1450,6 +1454,15 @@ func (x *Exec) assignKey(s string) assignItem {
 			x.fail("assigns: unknown type %s", s)
 		}
 		it.key, _ = e.heapKeyFor(t)
+	case s == "mem($T)":
+		fn := x.typeArgFn
+		if fn == nil {
+			fn = x.fn
+		}
+		if fn == nil || len(fn.TypeArgs()) == 0 {
+			x.fail("assigns: $T outside a generic instantiation")
+		}
+		it.key, _ = e.memKeyFor(fn.TypeArgs()[0])
 	case strings.HasPrefix(s, "mem(") && strings.HasSuffix(s, ")"):
 		t := e.prog.lookupType(s[4 : len(s)-1])
 		if t == nil {
